@@ -24,6 +24,7 @@ fn near(r: &mut Rng, ats: &[i64], spread: i64) -> i64 {
     *r.pick(ats) + match r.range(0, 3) { 0 => r.range(-3, 3), 1 => r.range(-spread, spread), _ => r.range(-100_000, 100_000) }
 }
 const DIS: [&str; 4] = ["compatible", "earlier", "later", "reject"];
+const VIAS: [&str; 5] = ["direct", "now", "instant", "rezone", "string"];
 const OFFOPT: [&str; 4] = ["use", "ignore", "prefer", "reject"];
 
 pub fn drive(t: &mut Tracer, r: &mut Rng, n: usize) {
@@ -35,7 +36,8 @@ pub fn drive(t: &mut Tracer, r: &mut Rng, n: usize) {
                 0 | 1 => { // wall reading near a transition's local image
                     let o = *r.pick(&offs); let w = near(r, &ats, 90_000) + o;
                     t.call("Zoned.fromLocal", json!({"zone": zone, "w": w, "dis": *r.pick(&DIS)})); }
-                2 => { t.call("Zoned.wall", json!({"zone": zone, "t": near(r, &ats, 4000)})); }
+                2 => { if r.chance(1, 2) { t.call("Zoned.wall", json!({"zone": zone, "t": near(r, &ats, 4000)})); }
+                       else { t.call("Zoned.views", json!({"zone": zone, "t": near(r, &ats, 4000), "via": *r.pick(&VIAS)})); } }
                 _ => { let o = *r.pick(&offs); let w = near(r, &ats, 50_000) + o;
                     let (k, off) = match r.range(0, 5) { 0 => ("none", 0), 1 => ("z", 0), 2 => ("offset", *r.pick(&offs)), 3 => { let x = *r.pick(&offs); ("offset", ((x.abs() + 30) / 60 * 60) * x.signum()) }, _ => ("offset", r.range(-14, 14) * 3600 + r.range(0, 59) * 60) };
                     if k != "z" && off % 60 == 0 && r.chance(1, 2) {
